@@ -44,6 +44,30 @@ CLAIMS = {
    text='Thin: tau must be an involution on keys for the cone of 1 + tau to be a complex. Decided: single key-map entries are written only through the two pair helpers, both symmetric in (k, tau k); the literal key tables are the coordinate swap and the identity; connecting combines pairs componentwise; both involutive s-invariants use 2d + w - r + 1 over the same atoms. That the homology is that of the mapping cone, agreement with ordinary Kh, s0 <= s1 and mirror behaviour are NOT decided.',
    ref='DESIGN.md §3 E7b, E8; §4 C19',
    note='Trusted: HashMap semantics.'),
+ 'C11': dict(cat='other', tech='static analysis: guard live-range dataflow, call-graph reachability to rayon, dominance/must-pass-through on MIR',
+   text='Static analysis that holds for EVERY thread interleaving because it is a property of the code: the shared pivot table is written only inside the critical section that validated the choice (write() -> update_diff(&*guard) -> no-retry edge of should_retry() -> set(), one guard, never dropped in between; retry edge re-acquires and refreshes the snapshot first), no lock/cell is re-acquired while one of its guards can be alive, and no rayon entry is reachable while a thread-local RefCell borrow or the write guard is alive (work stealing would otherwise double-borrow or self-deadlock on some schedules). That the committed pivot set is acyclic for all inputs (completeness of the conflict test) is NOT decided, nor are pivot-condition values.',
+   ref='DESIGN.md §3 E5; §4 C11',
+   note='Trusted: MIR drop elaboration; over-approximating call graph (CHA, closures invocable where passed); only rayon spawns parallel work.'),
+ 'C12': dict(cat='other', tech='static analysis: guard live-range dataflow + call-graph reachability to rayon over MIR',
+   text='Static analysis of the concurrency structure of the sparse kernels, valid for one thread and many alike: the thread-local scratch vector of the triangular solver is never borrowed across a call that can reach rayon, and the union-find mutex of the block splitter is never re-locked while a guard on it is alive. The numerical clauses (A*X = Y, S = D - C A^-1 B, transfer-map identities, block decomposition, scratch returning to zero) are NOT decided.',
+   ref='DESIGN.md §3 E5; §4 C12',
+   note='Trusted: as C11.'),
+ 'C09': dict(cat='other', tech='static analysis: path-sensitive symbolic summaries of the mirroring wrappers, who-may-write and ordering checks, float taint over MIR',
+   text='Static analysis of necessary conditions of D = P*A*Q, P*P^-1 = I, Q*Q^-1 = I for every matrix and every subset of the transform flags: every elementary row/column operation on the working matrix is mirrored into the requested companions with the same resp. inverse operation (indices, inverted/negated scalar, adjugate 2x2 block), only the wrappers mutate the working matrix, the phases run in the required order, every 2x2 block passed in is a Bezout block of determinant 1, and the exact divisions involve no float at any magnitude. That D is diagonal with a divisibility chain, its agreement with minors, and termination are NOT decided.',
+   ref='DESIGN.md §3 E6, E2; §4 C09',
+   note='Trusted: Mat elementary operations do what their names say; gcdx returns Bezout coefficients.'),
+ 'C10': dict(cat='other', tech='static analysis: path-sensitive symbolic summaries of the mirroring wrappers, who-may-write, float taint over MIR',
+   text='Static analysis of necessary conditions of H = P*A, P*P^-1 = I (and B = P*A for LLL) for every input: swap / unit scaling / row addition on the basis and the HNF row reversal are mirrored into P and, inverted, into P^-1 on every path where they are requested; nothing else mutates the basis; the nearest-integer quotient used for size reduction is float-free (exact for hundreds of digits). Echelon form, reducedness, the Lovasz condition and termination are NOT decided.',
+   ref='DESIGN.md §3 E6, E2; §4 C10',
+   note='Trusted: as C09.'),
+ 'C20': dict(cat='other', tech='static analysis: call-graph reachability (who-may-call, no-stdout-before-error), path summaries of main/guard, path-sensitive dispatch-table extraction over MIR',
+   text='Static analysis of the ykh binary for every option combination and every failure, without running it: all command dispatches execute inside the panic guard, the guard maps unwinding panics to Err, main writes the table only on the Ok arm and exits non-zero with nothing on stdout on the Err arm, no stdout write is reachable from dispatch (never a partial table before an error), no panic=abort profile; the macro-expanded (-t,-c) dispatch of kh and ckh instantiates App::<T>::run with exactly the documented ring for each (coefficient type, polynomial variables) pair, and every documented pair is present (thorough: also for the i128 and BigInt builds). That the printed cells equal the library values is NOT decided.',
+   ref='DESIGN.md §3 E10; §4 C20',
+   note='Trusted: over-approximating call graph; process::exit semantics; documented table A8 in DESIGN.md.'),
+ 'C18': dict(cat='other', tech='static analysis: convention tables read off MIR path summaries and cross-checked (sibling agreement)',
+   text='Static cross-check, valid for every diagram, of the conventions that link traversal, crossing signs, resolutions, mirroring and braid closures rely on: the tables encoded in pass / arcs / resolve / mirror / the sign match / ori_pres_state / the braid-closure crossing codes are extracted from the MIR of the functions themselves and must agree with each other (involution and orbit structure, mirror/bit duality, sign parity under mirror and reversal, in/out pairing of the Seifert smoothing, counter-clockwise top-entry braid codes with the generator sign). That components partition the edge set of every PD code and that closures have the right component count are NOT decided.',
+   ref='DESIGN.md §3 E7; §4 C18',
+   note='Trusted: PD-code convention (index 0 = incoming under end, counter-clockwise); Sign::is_positive by name.'),
 }
 
 NA = {
